@@ -101,9 +101,17 @@ func (l *baseLeaf) URLPath(vals map[string]string, withOptional bool) string {
 				continue
 			}
 
-			buf.WriteString("{")
-			buf.WriteString(e.BindParameters.Parameters[0].Ident)
-			buf.WriteString("}")
+			// A list of bind parameters with regex values (e.g. "{year: /\d+/, month: /\d+/}")
+			// defines one bind parameter per item, other items (e.g. "capture: 2") are
+			// annotations of the first one.
+			for i, p := range e.BindParameters.Parameters {
+				if i > 0 && p.Value.Regex == nil {
+					continue
+				}
+				buf.WriteString("{")
+				buf.WriteString(p.Ident)
+				buf.WriteString("}")
+			}
 		}
 	}
 
